@@ -48,7 +48,9 @@ def families(tier, rng):
         if rng.random() < 0.4:
             v = rng.choice(sess)
             k = rng.randrange(2, len(scr[v]))
-            scr[v] = scr[v][:k] + [["vanish", v]]
+            # (it may die in the middle of a line, even in the middle of a character)
+            frag = rng.choice([None, None, list(b"PW"), list(b"CWD caf\xc3"), list(b"MKD \xe2\x82"), list(b"\xf0\x9f")])
+            scr[v] = scr[v][:k] + ([["sendraw", v, frag]] if frag else []) + [["vanish", v] if rng.random() < 0.7 else ["vanish", v, "reset"]]
         sch = {"concurrent": {str(s): scr[s] for s in sess}, "seed": rng.randrange(1 << 30), "gate_prob": rng.choice([0.0, 0.3, 0.6])}
         fam.append(("merge", (scr, sess, sch)))
     return fam
